@@ -278,7 +278,15 @@ class DisconnectFlush(Unit):
         def ev(name):
             depth_at[name] = lock.depth
             log.append(name)
-        sock = types.SimpleNamespace(shutdown=lambda how: ev('shutdown'), close=lambda: ev('close'))
+        # fault at a particular point: shutdown() of a socket whose peer has gone raises socket.error (ENOTCONN); "then closes
+        # the socket" must hold on that path too (seeded change C12-r8)
+        shutdown_raises = bool(E.fork(2, 'shutdown-raises'))
+
+        def shutdown(how):
+            ev('shutdown')
+            if shutdown_raises:
+                raise PyRaise(OSError(107, 'Transport endpoint is not connected'))
+        sock = types.SimpleNamespace(shutdown=shutdown, close=lambda: ev('close'))
         fobj = types.SimpleNamespace(close=lambda: ev('file.close'))
         conn = harness_connection()
         conn.__dict__[lock_name()] = lock
@@ -322,7 +330,7 @@ class DisconnectFlush(Unit):
             if not rp['confirmed']:
                 rp = replay_directed(enabled, 'disconnect')
                 n += 1
-        return dict(name='C12.flush.concrete', evaluations=n, bound='queues of 0, 1, 5, 400 packets, immediate and not, '
+        return dict(name='C12.flush.concrete', evaluations=n, bound='queues of 0, 1, 5, 400 packets, immediate and not, shutdown() succeeding or raising ENOTCONN, '
                     'on the real Connection; 4 directed schedules of a forced write racing with the teardown',
                     failures=[dict(call=rp['call'], observed=rp['observed'], witness='flush')] if rp['confirmed'] else [])
 
@@ -397,7 +405,8 @@ def replay_close_race():
 
 def replay_flush():
     n = 0
-    for size in (0, 1, 5, 400):
+    import itertools
+    for size, shutdown_raises in itertools.product((0, 1, 5, 400), (False, True)):
         for immediate in (False, True):
             n += 1
             log = []
@@ -405,15 +414,21 @@ def replay_flush():
             setattr(conn, lock_name(), threading.RLock())
             conn._outgoing_packet_queue = deque(range(size))
             conn._write_packet = lambda p: log.append(p)
-            conn.socket = types.SimpleNamespace(shutdown=lambda how: log.append('shutdown'), close=lambda: log.append('close'))
+
+            def shutdown(how, log=log, shutdown_raises=shutdown_raises):
+                log.append('shutdown')
+                if shutdown_raises:
+                    raise OSError(107, 'Transport endpoint is not connected')
+            conn.socket = types.SimpleNamespace(shutdown=shutdown, close=lambda: log.append('close'))
             conn.file_object = types.SimpleNamespace(close=lambda: log.append('file.close'))
             conn.connected = True
             conn.networking_thread, conn.new_networking_thread = None, None
             k, v = native_call(conn.disconnect, immediate)
             want = ([] if immediate else list(range(size))) + ['shutdown', 'file.close', 'close']
             if k != 'ok' or log != want:
-                return dict(confirmed=True, n=n, call='disconnect(immediate=%r) with %d queued packets' % (immediate, size),
-                            observed='%s; events %r...' % (k, log[:6]))
+                return dict(confirmed=True, n=n, call='disconnect(immediate=%r) with %d queued packets%s'
+                            % (immediate, size, ', socket.shutdown raising ENOTCONN' if shutdown_raises else ''),
+                            observed='%s; events %r...' % (k, log[-6:]))
     return dict(confirmed=False, n=n, call='disconnect flush', observed='conforms')
 
 
